@@ -92,14 +92,17 @@ Print Assumptions C31_decoded_le_cap.
 
 (* 7. Exact or fail - PARTIAL.  If the origin serves `obj` (the clean stream of the data GET is the object; a range
       task that succeeds delivers the slice it was asked for) AND the length the probe reported is the object's length,
-      then a successful attempt returns the object, decoded by the codec the effective Content-Encoding names.
+      then a successful attempt returns the object, decoded by the codec the EFFECTIVE Content-Encoding names: on the
+      single-GET path the encoding named by the response that carried the body (the probe's only when that response
+      names none), on the range path the probe's.
       The side condition `probed_length_true` is what the code does not establish: refuted/R_C31.v. *)
 Theorem C31_exact_or_fail_partial :
   forall valid c presigned url dec sc obj d o,
     0 < c_chunk c ->
     origin_serves valid c presigned url sc obj -> probed_length_true valid c presigned url sc obj ->
     attempt valid c presigned url dec sc = (ROk d, o) ->
-    exists ce, match codec_of ce with
+    exists ce, effective_cenc valid c presigned url sc ce /\
+               match codec_of ce with
                | None => d = obj
                | Some k => dec k obj (max_dec c) = Some d
                end.
